@@ -329,9 +329,11 @@ func (e *Engine) lockCheckField(st *State, fr *Frame, stt types.Type, field, bas
 			}
 		}
 		// accesses inside the constructor-like function named after "or_in" are exempt: guarded_by lock or_in Init
+		exempt := false
 		for i := 2; i+1 < len(fs); i += 2 {
 			if fs[i] == "or_in" && e.inFunctionNamed(st, fs[i+1]) {
 				held = true
+				exempt = true
 			}
 		}
 		name := e.siteName(st, fr, "guarded-by["+field+"]", pos, ins)
@@ -357,7 +359,7 @@ func (e *Engine) lockCheckField(st *State, fr *Frame, stt types.Type, field, bas
 			return env.evalBool(frozen)
 		}
 		if held {
-			if frozen != nil && write {
+			if frozen != nil && write && !exempt {
 				st.oblige("guarded-by", e.siteName(st, fr, "not-frozen["+field+"]", pos, ins), not(frozenTerm()), pos)
 			}
 			e.trivial++
